@@ -172,17 +172,29 @@ func genCase(c *vf.Ctx, caseNo int) caseSpec {
 		cs.Requests = append(cs.Requests, rq)
 	}
 	// faults: one roughly every 25-45 requests
+	// the first four faults are one of each kind (in seeded order), the rest are drawn
+	first := []string{"stepdown", "restart", "snapshot", "outage"}
+	r.Shuffle(len(first), func(a, b int) { first[a], first[b] = first[b], first[a] })
+	nf := 0
 	for at := 15 + r.IntN(20); at < cs.NReqs-10; at += 22 + r.IntN(24) {
-		var f faultSpec
+		var kind string
 		switch p := r.IntN(100); {
 		case p < 28:
-			f = faultSpec{Kind: "stepdown"}
+			kind = "stepdown"
 		case p < 52:
-			f = faultSpec{Kind: "restart", Victim: r.IntN(4)} // 3 = current leader
+			kind = "restart"
 		case p < 70:
-			f = faultSpec{Kind: "snapshot", Victim: r.IntN(4), Param: r.IntN(3)}
+			kind = "snapshot"
 		default:
-			f = faultSpec{Kind: "outage", Param: 15 + r.IntN(70)} // endpoint fails everything for this many requests
+			kind = "outage"
+		}
+		if nf < len(first) {
+			kind = first[nf]
+		}
+		nf++
+		f := faultSpec{Kind: kind, Victim: r.IntN(4), Param: r.IntN(3)} // victim 3 = current leader
+		if kind == "outage" {
+			f.Param = 15 + r.IntN(70) // endpoint fails everything for this many requests
 		}
 		cs.Faults[at] = append(cs.Faults[at], f)
 		cs.NFaults++
